@@ -69,25 +69,113 @@ def transfer_identity(eng: Engine, ck: Check, rule: str):
           f'self fields {sorted(fields_self)}, other fields {sorted(fields_other)}', construct='Transfer identity')
 
 
+def enumerated_slots(eng: Engine, slots: list, fn, e, depth=0) -> set:
+    """Slots that the expression `e` (in function fn) enumerates in full: `self.S`, a tuple/list of those, a local list
+    they are appended to, `self.get_tasks()`-like helpers (one level).  `a or b` enumerates nothing (first non-None only)."""
+    sa = single_assignments(fn)
+    tcls = eng.cls('Transfer', TMODEL)
+    if isinstance(e, ast.Attribute) and isinstance(e.value, ast.Name) and e.value.id == 'self' and e.attr in slots:
+        return {e.attr}
+    if isinstance(e, (ast.Tuple, ast.List, ast.Set)):
+        return set().union(*[enumerated_slots(eng, slots, fn, x, depth) for x in e.elts]) if e.elts else set()
+    if isinstance(e, ast.Starred):
+        return enumerated_slots(eng, slots, fn, e.value, depth)
+    if isinstance(e, ast.Name):
+        out = set()
+        if e.id in sa and sa[e.id] is not None and depth < 3:
+            out |= enumerated_slots(eng, slots, fn, sa[e.id], depth + 1)
+        for c in calls_on(fn.node, 'append') + calls_on(fn.node, 'extend') + calls_on(fn.node, 'add'):
+            if isinstance(c.func.value, ast.Name) and c.func.value.id == e.id and c.args:
+                gs = [g for g, pol, _ in eng.guards_at(fn, c)]
+                arg_slots = enumerated_slots(eng, slots, fn, c.args[0], depth + 1)
+                # an append guarded by anything but the slot's own None-test does not count
+                if all(any(mentions_attr(g, sl) for sl in arg_slots) or (isinstance(c.args[0], ast.Name) and mentions_name(g, c.args[0].id))
+                       for g in gs):
+                    out |= arg_slots
+        return out
+    if isinstance(e, ast.Call) and isinstance(e.func, ast.Attribute) and isinstance(e.func.value, ast.Name) and \
+            e.func.value.id == 'self' and e.func.attr in tcls.methods and depth < 2:
+        m = tcls.methods[e.func.attr]
+        out = set()
+        rets = [r.value for r in walk_local(m.node) if isinstance(r, ast.Return) and r.value is not None]
+        if len(rets) == 1:
+            out = enumerated_slots(eng, slots, m, rets[0], depth + 1)
+        return out
+    if isinstance(e, ast.Call) and call_name(e) in ('list', 'tuple', 'set', 'sorted') and e.args:
+        return enumerated_slots(eng, slots, fn, e.args[0], depth)
+    if isinstance(e, (ast.IfExp, ast.BinOp)):
+        # `([a] if a is not None else []) + ([b] if b is not None else [])`: evaluated for every combination of set / empty slots;
+        # a slot is enumerated iff it is in the value whenever it is set (operator precedence included: the AST is what runs)
+        import itertools as _it
+        tup_alias = {}
+        for n_ in walk_local(fn.node):
+            if isinstance(n_, ast.Assign) and isinstance(n_.targets[0], ast.Tuple) and isinstance(n_.value, ast.Tuple) and len(n_.targets[0].elts) == len(n_.value.elts):
+                for t_, v_ in zip(n_.targets[0].elts, n_.value.elts):
+                    if isinstance(t_, ast.Name):
+                        tup_alias[t_.id] = v_
+
+        def slot_of(x):
+            if isinstance(x, ast.Name) and x.id in tup_alias:
+                x = tup_alias[x.id]
+            elif isinstance(x, ast.Name) and x.id in sa and sa[x.id] is not None:
+                x = sa[x.id]
+            if isinstance(x, ast.Attribute) and isinstance(x.value, ast.Name) and x.value.id == 'self' and x.attr in slots:
+                return x.attr
+            return None
+
+        def ev(x, env):
+            if isinstance(x, (ast.List, ast.Tuple)):
+                out_ = set()
+                for el in x.elts:
+                    s_ = slot_of(el)
+                    if s_ is None or not env[s_]:
+                        return None          # an unknown element, or an empty slot put into the result
+                    out_.add(s_)
+                return out_
+            if isinstance(x, ast.BinOp) and isinstance(x.op, ast.Add):
+                l_, r_ = ev(x.left, env), ev(x.right, env)
+                return None if l_ is None or r_ is None else l_ | r_
+            if isinstance(x, ast.IfExp):
+                t_ = x.test
+                pol_ = True
+                while isinstance(t_, ast.UnaryOp) and isinstance(t_.op, ast.Not):
+                    t_, pol_ = t_.operand, not pol_
+                a_ = cmp_atom(t_)
+                if a_ and a_[0] == 'is' and is_none_const(a_[2]) and slot_of(a_[1]):
+                    truth = not env[slot_of(a_[1])]
+                elif isinstance(t_, ast.Compare) and isinstance(t_.ops[0], ast.IsNot) and is_none_const(t_.comparators[0]) and slot_of(t_.left):
+                    truth = env[slot_of(t_.left)]
+                elif slot_of(t_):
+                    truth = env[slot_of(t_)]
+                else:
+                    return None
+                return ev(x.body if truth == pol_ else x.orelse, env)
+            return None
+        full = set(slots)
+        for combo in _it.product((False, True), repeat=len(slots)):
+            env_ = dict(zip(slots, combo))
+            v_ = ev(e, env_)
+            if v_ is None:
+                return set()
+            full &= {s_ for s_ in slots if not env_[s_]} | v_      # s stays only if (set => contained)
+        return full
+    if isinstance(e, (ast.ListComp, ast.GeneratorExp, ast.SetComp)) and len(e.generators) == 1 and \
+            isinstance(e.elt, ast.Name) and isinstance(e.generators[0].target, ast.Name) and e.elt.id == e.generators[0].target.id:
+        g = e.generators[0]
+        # a filter may only drop empty (None) or finished entries
+        if all(mentions_name(i, e.elt.id) and ('None' in unparse(i) or 'done()' in unparse(i) or unparse(i) == e.elt.id) for i in g.ifs):
+            return enumerated_slots(eng, slots, fn, g.iter, depth)
+    return set()
+
+
+
 def transfer_get_tasks(eng: Engine, ck: Check, rule: str, slots: list[str]):
     """get_tasks() returns every task slot that is set (the scheduler's "an attempt is in flight" test and cancel_tasks build on it)."""
     m = _method(eng, TMODEL, 'Transfer', 'get_tasks')
     ck.visited(m)
     rets = [n for n in walk_local(m.node) if isinstance(n, ast.Return) and n.value is not None]
-    got: set[str] = set()
     ok = len(rets) == 1
-    if ok:
-        v = rets[0].value
-        if isinstance(v, ast.Name):
-            for c in calls_in(m.node):
-                if isinstance(c.func, ast.Attribute) and c.func.attr in ('append', 'add') and isinstance(c.func.value, ast.Name) and c.func.value.id == v.id and c.args and \
-                        isinstance(c.args[0], ast.Attribute) and unparse(c.args[0].value) == 'self':
-                    gs = [g for g, pol, _ in eng.guards_at(m, c)]
-                    if all(mentions_attr(g, c.args[0].attr) for g in gs):
-                        got.add(c.args[0].attr)
-        for n in ast.walk(expand_aliases(m, v)):
-            if isinstance(n, (ast.List, ast.Tuple)):
-                got |= {e.attr for e in n.elts if isinstance(e, ast.Attribute) and unparse(e.value) == 'self'}
+    got = enumerated_slots(eng, slots, m, rets[0].value) if ok else set()
     ck.ob(rule, m, m.node, f'Transfer.get_tasks() returns every task slot that is set ({slots})', ok and set(slots) <= got,
           f'slots returned: {sorted(got)}', construct='get_tasks covers slots')
 
@@ -204,8 +292,18 @@ def state_lock_wrapping(eng: Engine, ck: Check, rule: str, only=('__init__', '__
             ok = len(own) == 1 and (not own[0][1]) and call_name(own[0][0]) == 'startswith' and const(own[0][0].args[0]) == '_'
             it_ok = bool(loops) and 'getmembers' in unparse(loops[0].iter) and 'ismethod' in unparse(loops[0].iter)
             outer = [g for g in gs if g not in own]
+            why = f'guards: {[unparse(g[0]) for g in gs]}, iterates inspect.getmembers(ismethod): {it_ok}'
+            if loops and not it_ok:
+                # an explicit table of operation names instead of reflection: it must name every state operation of the base class
+                tbl = resolve_named_constant(loops[0].iter) if not isinstance(loops[0].iter, (ast.Tuple, ast.List)) else loops[0].iter
+                if isinstance(tbl, (ast.Tuple, ast.List, ast.Set)) and all(isinstance(const(e_), str) for e_ in tbl.elts):
+                    names = {const(e_) for e_ in tbl.elts}
+                    ops = {n_ for n_, f_ in base.methods.items() if not n_.startswith('_') and f_.is_async}
+                    it_ok = ops <= names
+                    ok = not own
+                    why = f'the table {sorted(names)} misses the state operation(s) {sorted(ops - names)}: they run without the state lock and without the re-dispatch on the current state'
             ck.ob(rule, m, c, 'every public method (name not starting with "_") is re-bound to the locked wrapper',
-                  ok and it_ok, f'guards: {[unparse(g[0]) for g in gs]}, iterates inspect.getmembers(ismethod): {it_ok}', construct=f'wrap loop in {mn}')
+                  ok and it_ok, why, construct=f'wrap loop in {mn}')
             if ok and it_ok and not outer and len(loops) == 1:
                 good_loops.setdefault(mn, []).append(loops[0])
     helpers = {mn for mn in good_loops if mn not in only}
@@ -238,3 +336,46 @@ def connection_finalisation(eng: Engine):
         if p is None:
             helpers.add(m.name)
     return helpers, direct
+
+
+# --------------------------------------------------------------------------- distributed network: peer lookup by connection
+def distributed_peer_lookup(eng: Engine, ck: Check, rule: str):
+    """get_distributed_peer(connection) answers with THE peer registered for that connection object, whichever other peers carry the
+    same username: the connection test is part of the search itself (a search that stops at the first peer with the right name and
+    compares the connection afterwards misses the second connection of a user).  The CLOSED handler, the branch-value handlers and
+    the child admission all find their peer through it."""
+    m = eng.func(DIST, 'DistributedNetwork.get_distributed_peer')
+    ck.visited(m)
+    cp = [p_ for p_ in m.params if p_ != 'self'][0]
+    rets = [n for n in walk_local(m.node) if isinstance(n, ast.Return) and n.value is not None and not is_none_const(n.value)]
+
+    def conn_test(e: ast.AST, pol: bool, var: str) -> bool:
+        a = cmp_atom(e)
+        return bool(a and a[0] in ('eq', 'is') and pol and {unparse(a[1]), unparse(a[2])} == {f'{var}.connection', cp})
+    ok = bool(rets)
+    why = []
+    for r in rets:
+        v = r.value
+        good = False
+        if isinstance(v, ast.Name):
+            lp = next((a for a in ancestors(r) if isinstance(a, (ast.For, ast.AsyncFor))), None)
+            if lp is not None and isinstance(lp.target, ast.Name) and lp.target.id == v.id and chain_str(lp.iter) == 'self.distributed_peers':
+                good = any(conn_test(e, pol, v.id) for e, pol, _ in eng.guards_at(m, r))
+            else:
+                # `peer = <loop variable>` assigned in the hit branch of the search loop (the desugared next(..) form)
+                for n in walk_local(m.node):
+                    if isinstance(n, ast.Assign) and unparse(n.targets[0]) == v.id and isinstance(n.value, ast.Name):
+                        lp2 = next((a for a in ancestors(n) if isinstance(a, (ast.For, ast.AsyncFor))), None)
+                        if lp2 is not None and isinstance(lp2.target, ast.Name) and lp2.target.id == n.value.id and chain_str(lp2.iter) == 'self.distributed_peers' and \
+                                lp2 in list(ancestors(r)) and any(conn_test(e, pol, n.value.id) for e, pol, _ in eng.guards_at(m, n)):
+                            good = True
+        elif isinstance(v, ast.Call) and call_name(v) == 'next' and v.args and isinstance(v.args[0], ast.GeneratorExp) and len(v.args[0].generators) == 1:
+            g = v.args[0].generators[0]
+            if isinstance(g.target, ast.Name) and unparse(v.args[0].elt) == g.target.id and chain_str(g.iter) == 'self.distributed_peers':
+                good = any(conn_test(e, pol, g.target.id) for i_ in g.ifs for e, pol in split_conj(i_, True))
+        if not good:
+            why.append(unparse(r)[:80])
+        ok = ok and good
+    ck.ob(rule, m, m.node, 'get_distributed_peer(connection) searches the registered peers FOR that connection (the connection test is part of the search, not a '
+          'check of the first peer with the right name)', ok, f'returns not established as "the peer of this connection": {why}' if why else 'no peer is ever returned',
+          construct='peer lookup by connection')
